@@ -254,3 +254,14 @@ func SmallU64(name string, bits int) uint64 {
 	}
 	return v
 }
+
+// BLSVerifyCalls is the number of BLS signature verifications the code has made
+// so far (engine only: there the outcome of each is a symbolic boolean).
+func BLSVerifyCalls() int { return 0 }
+
+// BLSVerifyResult is the outcome of the i-th verification (engine only).
+func BLSVerifyResult(_ int) bool { return false }
+
+// BLSInvalidKey declares 48 bytes that are not a valid BLS public key: parsing
+// them fails (engine only; natively such bytes have to be chosen for real).
+func BLSInvalidKey(_ []byte) {}
